@@ -4,6 +4,8 @@
 //!   simd <Src> <Dst> <vt> | N  x(lane0 c0 c1 c2) x(lane1 ..) ..        | y(lane0 d0 d1 d2) ..      vt in f32,f64 (N=1), f32x4,f32x8,f64x2,f64x4
 //!   pack <Type> <vt>      | N A  lane-major scalars                      | component-major SIMD fields, then the unpacked lane-major scalars
 //!   vmask <vt>            | N a.. b.. x.. y..                            | lt le eq ne ge gt (N bits each) sel.. lazysel.. and.. or.. xor.. not.. valid.. all none
+//! Second part of the oracle (the operations that compile for the wide types and are not driven here: colour differences, contrast, Luma, Cam16,
+//! the `num`/`angle` traits on the wide types themselves, ...): `c17_more.rs`, called at the end of `run`.
 //! Oracle (the property's own predicate, implementation against implementation): every lane of a SIMD result equals the scalar
 //! result for that lane's input; pack/unpack keep lane order; masks act lane by lane; f32 agrees with f64 to single precision.
 use crate::common::*;
@@ -53,22 +55,22 @@ pub struct Cmp {
     pub chroma: Option<usize>,
 }
 /// only `+ - * / min max select`, identical operation order in both representations: every lane must be bit-identical
-const fn exact() -> Cmp { Cmp { tol: 0.0, scale: [1.0; 4], hue: None, chroma: None } }
+pub const fn exact() -> Cmp { Cmp { tol: 0.0, scale: [1.0; 4], hue: None, chroma: None } }
 /// `wide`'s polynomial `pow`/`sin`/`cos`/`atan2`/`exp`/`ln` instead of libm, unfused `mul_add`, `sqrt(a²+b²)` instead of `hypot`:
 /// each is accurate to a few ulp of its result (measured maxima are recorded in the evidence: <= 3 eps for the transfer
 /// functions and the RGB->XYZ rows, <= 1.1 eps of 360° for hues, <= 1 eps for sin/cos products, thorough tier); 16 eps of the
 /// component's natural scale leaves a margin of ~6x over the measured maxima while staying far below anything a wrong
 /// branch or a wrong formula produces.
-const fn approx(scale: [f64; 4], hue: Option<usize>) -> Cmp { Cmp { tol: 16.0, scale, hue, chroma: match hue { Some(_) => Some(1), None => None } } }
+pub const fn approx(scale: [f64; 4], hue: Option<usize>) -> Cmp { Cmp { tol: 16.0, scale, hue, chroma: match hue { Some(_) => Some(1), None => None } } }
 /// Rgb -> Hsv/Hsl/Hwb: the branch-free algorithm computes `hue_base + m/chroma - 6` where the scalar one computes `sep/d + coeff`:
 /// the same real number modulo 6 sextants (theorem `hsv_mask_eq_scalar`), with two extra roundings at magnitude < 16,
 /// i.e. <= 8 eps sextants = 480 eps degrees = 1.4 eps of 360°.  Tolerance 4 eps of 360°, hue on the circle; the other two components exact.
-const fn hue_branch() -> Cmp { Cmp { tol: 4.0, scale: [360.0, 0.0, 0.0, 0.0], hue: Some(0), chroma: None } }
+pub const fn hue_branch() -> Cmp { Cmp { tol: 4.0, scale: [360.0, 0.0, 0.0, 0.0], hue: Some(0), chroma: None } }
 
-fn circ(a: f64, b: f64) -> f64 { let d = (a - b).rem_euclid(360.0); d.min(360.0 - d) }
+pub fn circ(a: f64, b: f64) -> f64 { let d = (a - b).rem_euclid(360.0); d.min(360.0 - d) }
 
 /// (ok, distance in eps*scale)
-fn lane_cmp<T: Fl>(a: T, b: T, c: &Cmp, k: usize) -> (bool, f64) {
+pub fn lane_cmp<T: Fl>(a: T, b: T, c: &Cmp, k: usize) -> (bool, f64) {
     let (x, y) = (a.to64(), b.to64());
     if x.is_nan() || y.is_nan() { let ok = x.is_nan() && y.is_nan(); return (ok, if ok { 0.0 } else { f64::INFINITY }); }
     let same = a.bits64() == b.bits64() || (x == 0.0 && y == 0.0);
@@ -88,7 +90,7 @@ fn lane_cmp<T: Fl>(a: T, b: T, c: &Cmp, k: usize) -> (bool, f64) {
 // ------------------------------------------------------------------------------------------------------------------
 
 /// branch signature of an input, used to build lane groups whose lanes sit on different branches
-fn class_of(space: &str, c: &[f64]) -> u32 {
+pub fn class_of(space: &str, c: &[f64]) -> u32 {
     let ord = |a: f64, b: f64| -> u32 { if a < b { 0 } else if a == b { 1 } else { 2 } };
     match space {
         "Rgb" | "RgbL" => {
@@ -112,7 +114,7 @@ fn class_of(space: &str, c: &[f64]) -> u32 {
     }
 }
 
-fn thresholds_around(v: &mut Vec<f64>, t: f64) {
+pub fn thresholds_around(v: &mut Vec<f64>, t: f64) {
     for k in [-16i64, -2, -1, 0, 1, 2, 16] { v.push(nudge64(t, k)); v.push(nudge32(t as f32, k as i32) as f64); }
 }
 
@@ -174,7 +176,7 @@ fn hue_extras(rng: &mut Rng, hue_at: usize, lo1: f64, hi1: f64, lo2: f64, hi2: f
 }
 
 /// lane groups: deliberately mixed branches, random, homogeneous, splat
-fn make_groups(space: &str, pool: &[[f64; 3]], n_lanes: usize, rng: &mut Rng, n_groups: usize) -> (Vec<Vec<[f64; 3]>>, u64) {
+pub fn make_groups(space: &str, pool: &[[f64; 3]], n_lanes: usize, rng: &mut Rng, n_groups: usize) -> (Vec<Vec<[f64; 3]>>, u64) {
     let mut idx: Vec<usize> = (0..pool.len()).collect();
     idx.sort_by_key(|&i| class_of(space, &pool[i]));
     let m = idx.len();
@@ -232,7 +234,7 @@ where S: ArrayCast<Array = [T; 3]> + Clone, D: ArrayCast<Array = [T; 3]> + FromC
     }
 }
 
-fn arr_of3<T: Fl>(a: [f64; 3]) -> [T; 3] { [T::of(a[0]), T::of(a[1]), T::of(a[2])] }
+pub fn arr_of3<T: Fl>(a: [f64; 3]) -> [T; 3] { [T::of(a[0]), T::of(a[1]), T::of(a[2])] }
 
 /// f32 against f64 on the scalar types.  Both are evaluated at the same (f32-representable) input, so only the internal
 /// roundings differ.  Tolerance: 32 eps32 of the component scale (a chain of <= ~20 f32 operations incl. matrix rows with
@@ -274,7 +276,7 @@ where S32: ArrayCast<Array = [f32; 3]>, D32: ArrayCast<Array = [f32; 3]> + FromC
     }
 }
 
-fn natural_scale(space: &str) -> [f64; 4] {
+pub fn natural_scale(space: &str) -> [f64; 4] {
     match space {
         "Lab" | "Luv" => [100.0, 128.0, 128.0, 1.0],
         "Lch" | "Lchuv" => [100.0, 128.0, 360.0, 1.0],
@@ -347,7 +349,7 @@ where C: ArrayCast<Array = [T; 3]> + Clone, CV: From<[C; N]>, V: IntoScalarArray
     }
 }
 
-fn op_groups(space: &str, pool: &[[f64; 3]], n_lanes: usize, rng: &mut Rng, n_groups: usize, plo: f64, phi: f64) -> Vec<(Vec<[f64; 3]>, Vec<[f64; 3]>, Vec<f64>)> {
+pub fn op_groups(space: &str, pool: &[[f64; 3]], n_lanes: usize, rng: &mut Rng, n_groups: usize, plo: f64, phi: f64) -> Vec<(Vec<[f64; 3]>, Vec<[f64; 3]>, Vec<f64>)> {
     let (ga, _) = make_groups(space, pool, n_lanes, rng, n_groups);
     let (gb, _) = make_groups(space, pool, n_lanes, rng, n_groups);
     ga.into_iter().zip(gb).map(|(a, b)| {
@@ -629,6 +631,10 @@ pub fn run(tier: &str, seed: u64, dir: &str) {
     let nm = if thorough { 100_000 } else { 4_000 };
     mask_ops::<f32, f32x4, 4>(out, "f32x4", rng, nm); mask_ops::<f32, f32x8, 8>(out, "f32x8", rng, nm);
     mask_ops::<f64, f64x2, 2>(out, "f64x2", rng, nm); mask_ops::<f64, f64x4, 4>(out, "f64x4", rng, nm);
+
+    // ---- the operations that compile for the wide types and are not driven above (colour differences, contrast, Luma, Cam16, the
+    // `num`/`angle` traits on the wide types themselves, ...): `c17_more.rs`.  Called last, so that the case stream above is unchanged.
+    crate::c17_more::run_more(out, rng, thorough, ng, &pools);
 
     }
     out_.finish(dir, "");
